@@ -300,6 +300,8 @@ func TestC07(t *testing.T) {
 		awsKMSRows(r)
 		synctest.Wait()
 	})
+	// 13. many goroutines at once (outside the bubble: real scheduling, race detector)
+	concurrentPass(r)
 	r.Exhaustive(true)
 	r.Finish(t)
 }
